@@ -145,6 +145,20 @@ def c20_c(ctx: Ctx):
                                         "an incompatible project is treated as 'no project here'"))
             else:
                 out.append(ctx.ok(R, f, h, f"handler for {types} cannot catch IncompatibleSchemaVersion"))
+    # what the `except RuntimeError: pass` of _raise_if_older_schema may swallow: only 'no loadable legacy config here'
+    gv = ctx.fn(MIG + ":_get_config_schema_version")
+    for r in [n for n in body_nodes(gv) if isinstance(n, ast.Raise) and n.exc is not None]:
+        nm = dotted(r.exc.func if isinstance(r.exc, ast.Call) else r.exc) or ""
+        pmg = ctx.parents(gv)
+        par = pmg.get(id(r))
+        in_for_else = isinstance(par, ast.For) and any(r is x for x in par.orelse)
+        k = f"{gv.qual}|raise:{stmt_key(r, 50)}"
+        if in_for_else:
+            out.append(ctx.ok(R, gv, r, "the only error of the version probe is 'no loader could read a config file' (for-else)", construct=k))
+        else:
+            facts = common.facts_at(ctx, gv, r, "n")
+            out.append(ctx.viol(R, gv, r, f"_get_config_schema_version raises {nm} under {sorted(facts)}: _raise_if_older_schema calls it inside `except RuntimeError: pass`, so this condition "
+                                "is silently read as 'no legacy project here' and an incompatible project is reported as missing (init_project then writes a new configuration into it)", construct=k))
     f = ctx.fn(RIO)
     raises = [n for n in body_nodes(f) if isinstance(n, ast.Raise) and n.exc is not None and (dotted(n.exc.func if isinstance(n.exc, ast.Call) else n.exc) or "").endswith("IncompatibleSchemaVersion")]
     if not raises:
